@@ -70,7 +70,8 @@ def _single_atoms(seed):
             for val in ("2024-06-01", "10", "0", "007", "123456", a, b, "none", "x", "1_0", "1_000", "2024_06_01",
                         "2024", "1234", "2411", "12315"):
                 atoms.append(["prop", k, op, val, neg])
-    for text in (a, b, f"two {a}", "o%b", "a_b", "x\\y", "it's" if False else "q\"q"):
+    # (texts that begin or end with the OTHER kind of quote keep it)
+    for text in (a, b, f"two {a}", "o%b", "a_b", "x\\y", "it's" if False else "q\"q", "'tis", "rock 'n'", '"hello"', "'", '"'):
         for quote in ("'", '"'):
             if quote in text:
                 continue
